@@ -434,3 +434,11 @@ def concb(b):
     if b:
         return True
     return False
+
+
+def untraced(fn, *args):
+    """run a harness-side (oracle / reference) computation on CONCRETE inputs natively"""
+    if _is_tracing():
+        with _NoTracing():
+            return fn(*args)
+    return fn(*args)
